@@ -178,7 +178,10 @@ SEGMENTED_EXPECT_END = {i: None for i in range(21)}
 def _fk(key: Key):
     from comb_spec_searcher.typing import ForestRuleKey, RuleBucket
 
-    return ForestRuleKey(key[0], tuple(key[1]), tuple(key[2]), RuleBucket.NORMAL)
+    # the table method's function must not depend on the bucket of a key (buckets only order
+    # the extractor's minimisation), so the bucket is varied with the key instead of being fixed
+    buckets = (RuleBucket.NORMAL, RuleBucket.REVERSE, RuleBucket.EQUIV, RuleBucket.VERIFICATION)
+    return ForestRuleKey(key[0], tuple(key[1]), tuple(key[2]), buckets[(key[0] + sum(key[1]) + sum(key[2]) + len(key[1])) % 4])
 
 
 _ORACLE_MEMO: Dict[Tuple[Key, ...], Dict[int, Optional[int]]] = {}
